@@ -33,7 +33,8 @@ class Layout:
 
 def code_end(dis, start, want, limit):
     """End address (instruction boundary) of a code region starting at `start` of about `want` bytes, <= limit.
-    Returns None if no boundary <= limit exists."""
+    Returns None if no boundary <= limit exists. With a wrapping disassembler and limit 65536 the last
+    instruction may wrap past 65535 (the region then ends at 65536)."""
     a = start
     best = None
     while a < limit:
@@ -43,6 +44,8 @@ def code_end(dis, start, want, limit):
             return best
         a2 = a + n
         if a2 > limit:
+            if limit == 65536 and dis.wrap and a2 > 65536:
+                return 65536
             break
         a = a2
         best = a
